@@ -12,12 +12,17 @@ is just a list of (x_i, x_j) evaluations), both `prefer_speed_over_memory` setti
   rfftFreq            mirrors  utils.get_freqs (the frequency vector of the cache and of both analyzers)
   welchFreq           mirrors  the dense frequency vector (mlab: np.fft.fftfreq)
   cacheDefaultOverlap / denseDefaultOverlap   mirror the two default-overlap expressions
+  windowVals (Model/C09Win.lean) with Generated.CacheWin   mirrors `if np.iterable(window): window_vals = … else: window(np.ones(…))`
+  getFreqsR / mlabFreqsR (Lemmas/C09FloatBand.lean)   mirror CohBase.getFreqs / C09.mlabFreqs with an abstract rounding
 -/
 import Nitime.Props.C08
 import Nitime.Lemmas.CohBounds
+import Nitime.Model.C09Win
+import Nitime.Generated.CacheWin
+import Nitime.Lemmas.C09FloatBand
 
 open Finset ComplexConjugate
-open Nitime.Coh Nitime.C08.Props
+open Nitime.Coh Nitime.C08.Props Nitime.C09 Nitime.Generated
 
 namespace Nitime.C09.Props
 
@@ -257,5 +262,81 @@ example := cache_psd_eq_dense false [1, 2, 1] [1, -1, 2, 1 / 2] (Fs := 2) (by no
   (by norm_num [W, Finset.sum_range_succ])
 example : nSeg ([1, -1] : List ℝ).length 3 1 = 1 := by decide
 example : nSeg ([1, -1, 2, 1 / 2] : List ℝ).length 3 1 > 1 := by decide
+
+
+/-! ### the window: given as data or as a function, whatever the dtype of the recording -/
+
+/-- as extracted from the CURRENT source of `cache_fft`: a window given as a sequence is used with the values it holds
+(no cast to the dtype of the data), a window function is recognised, and the cached slices are FFTs of
+`window_vals * segment` -/
+theorem cache_fft_takes_window_as_given :
+    CacheWin.arrayConv = .asGiven ∧ CacheWin.funcArg ≠ .unknown ∧ CacheWin.windowedProduct = true := by decide
+
+theorem windowVals_array_as_given {K : Type} (c : Casts K) (one : K) (dt : DType) (N : ℕ) (v : List K) :
+    windowVals c one CacheWin.arrayConv CacheWin.funcArg dt N (.arr v) = some v := rfl
+
+theorem zipWith_mul_replicate_one (h : List ℂ) (N : ℕ) (hN : h.length ≤ N) :
+    List.zipWith (· * ·) h (List.replicate N (1 : ℂ)) = h := by
+  induction h generalizing N with
+  | nil => simp
+  | cons a t ih =>
+    cases N with
+    | zero => simp at hN
+    | succ n =>
+      have : t.length ≤ n := by simpa using hN
+      simp [List.replicate_succ, ih n this]
+
+theorem windowVals_mul_function (c : Casts ℂ) (dt : DType) (N : ℕ) (h : List ℂ) (hN : h.length ≤ N) :
+    windowVals c 1 CacheWin.arrayConv CacheWin.funcArg dt N (.func (mulWindow (· * ·) h)) = some h := by
+  simp [windowVals, CacheWin.funcArg, mulWindow, zipWith_mul_replicate_one h N hN]
+
+/-- the two ways of handing a real window `w` to `cache_fft`: as data (array / list / tuple of any dtype: its values),
+or as the function `lambda x: w * x` -/
+inductive GivenAs (w : List ℝ) (N : ℕ) : WinArg ℂ → Prop
+  | data : GivenAs w N (.arr (w.map (↑)))
+  | function (h : w.length ≤ N) : GivenAs w N (.func (mulWindow (· * ·) (w.map (↑))))
+
+theorem windowVals_given (c : Casts ℂ) (dt : DType) (w : List ℝ) (N : ℕ) (wa : WinArg ℂ) (hg : GivenAs w N wa) :
+    windowVals c 1 CacheWin.arrayConv CacheWin.funcArg dt N wa = some (w.map (↑)) := by
+  cases hg with
+  | data => rfl
+  | function h => exact windowVals_mul_function c dt N _ (by simpa using h)
+
+/-- **cached coherency = dense coherency for an arbitrary real window, given as data or as a function, for every dtype
+class of the recording and whatever numpy's casts do** (the conversion of the window is the one extracted from the source) -/
+theorem cache_coherency_eq_dense_any_window_arg (b sbf : Bool) (c : Casts ℂ) (dt : DType) (w xi xj : List ℝ) (wa : WinArg ℂ)
+    {Fs : ℝ} (hFs : 0 < Fs) (N step l t : ℕ) (hg : GivenAs w N wa) (hW : 0 < W w N) (hlen : xj.length = xi.length) :
+    ∃ wv, windowVals c 1 CacheWin.arrayConv CacheWin.funcArg dt N wa = some wv ∧
+      cacheCoherency b wv (normVal wv (Fs : ℂ) N sbf) N step (xi.map (↑)) (xj.map (↑)) l t
+        = coherencySpec
+            (welchBin (w.map (↑)) (Fs : ℂ) N step (xi.map (↑)) (xj.map (↑)) (l + t))
+            (welchBin (w.map (↑)) (Fs : ℂ) N step (xi.map (↑)) (xi.map (↑)) (l + t))
+            (welchBin (w.map (↑)) (Fs : ℂ) N step (xj.map (↑)) (xj.map (↑)) (l + t)) :=
+  ⟨_, windowVals_given c dt w N wa hg, cache_coherency_eq_dense b sbf w xi xj hFs N step l t hW hlen⟩
+
+theorem cache_psd_eq_dense_any_window_arg (b : Bool) (c : Casts ℂ) (dt : DType) (w x : List ℝ) (wa : WinArg ℂ)
+    {Fs : ℝ} (hFs : 0 < Fs) (N step l t : ℕ) (hg : GivenAs w N wa) (hW : 0 < W w N) :
+    ∃ wv, windowVals c 1 CacheWin.arrayConv CacheWin.funcArg dt N wa = some wv ∧
+      cachePsd b wv (normVal wv (Fs : ℂ) N true) N step (x.map (↑)) l t
+        = welchBin (w.map (↑)) (Fs : ℂ) N step (x.map (↑)) (x.map (↑)) (l + t) :=
+  ⟨_, windowVals_given c dt w N wa hg, cache_psd_eq_dense b w x hFs N step l t hW⟩
+
+/-- contrast (the change class of seeded change C09-8): a cast of the window to the dtype of an INTEGER recording
+truncates the 4-point Hanning taper `[0, 3/4, 3/4, 0]` to zeros -/
+theorem cast_to_integer_data_zeroes_taper :
+    windowVals (⟨id, fun x => ((Rat.floor x : ℤ) : ℚ)⟩ : Casts ℚ) 1 .castToData .onesOfDataDtype .int 4 (.arr [0, 3 / 4, 3 / 4, 0])
+      = some [0, 0, 0, 0] := by decide +kernel
+
+/-! ### band-index selection in binary64 (moved from "correspondence only" to proved: `Lemmas/C09FloatBand.lean`) -/
+
+/-- `cache_fft`'s band indices, computed on the FLOAT vector `utils.get_freqs(Fs, NFFT)` (any monotone rounding with
+relative error `u` per operation), are the indices of the exact grid `k·Fs/NFFT` as soon as no band edge lies within the
+rounding error of a bin -/
+theorem cache_band_indices_float_eq_exact (R : Rounding) {u : ℚ} (hu0 : 0 ≤ u) (hu1 : u ≤ 1) (h : R.relErr u)
+    {Fs : ℚ} (hFs : 0 ≤ Fs) (N : ℕ) (lb ub : ℚ)
+    (hlb : ∀ k < N / 2 + 1, lb < (1 - u) ^ 3 * ((k : ℚ) * Fs / (N : ℚ)) ∨ (1 + u) ^ 3 * ((k : ℚ) * Fs / (N : ℚ)) < lb)
+    (hub : ∀ k < N / 2 + 1, ub < (1 - u) ^ 3 * ((k : ℚ) * Fs / (N : ℚ)) ∨ (1 + u) ^ 3 * ((k : ℚ) * Fs / (N : ℚ)) < ub) :
+    gb (getFreqsR R Fs N) lb (some ub) = gb (Nitime.C05.trueOneSided Fs N) lb (some ub) :=
+  float_band_eq_exact_band_of_offgrid R hu0 hu1 h hFs N lb ub hlb hub
 
 end Nitime.C09.Props
